@@ -398,7 +398,11 @@ func (req *SrvReq) Respond() {
 	}
 
 	if (status & reqFlush) == 0 {
-		conn.reqout <- req
+		select {
+		case conn.reqout <- req:
+		case <-conn.done:
+			/* the connection is closed, nobody is left to send the reply */
+		}
 	}
 
 	/* remove the request and all requests flushing it; only now that the
